@@ -495,7 +495,13 @@ def same(a, b) -> bool:
         return False
     if np.array_equal(a, b, equal_nan=a.dtype.kind == "f"):
         return True
-    return bool(a.dtype.kind == "f" and np.allclose(a, b, rtol=1e-5, atol=1e-6, equal_nan=True))
+    if a.dtype.kind != "f":
+        return False
+    # the built model and m run other kernels / fusions (converted operators, bodies): last-bit differences, which a
+    # subtraction of nearly equal values turns into absolute errors of the size of the tensor's scale * 1e-7
+    fin = np.abs(b[np.isfinite(b)])
+    scale = float(fin.max()) if fin.size else 0.0
+    return bool(np.allclose(a, b, rtol=1e-5, atol=1e-6 + 1e-5 * scale, equal_nan=True))
 
 
 def all_nodes(g: onnx.GraphProto):
@@ -743,8 +749,10 @@ def oracle_compose(m: onnx.ModelProto, form: str, seed: int) -> list[tuple[str, 
     vals2 = {k: (-v if v.dtype != np.bool_ else np.array(not bool(v))) for k, v in vals1.items()}
     fshape = tuple(vals1[float_ins[0]].shape) if float_ins else (2,)
 
+    blame_vals = [vals1, vals2]  # every input assignment m is evaluated on in this composition
+
     def mismatch(default_key: str) -> str:
-        return converter_blame(m_ref, [vals1, vals2]) or default_key
+        return converter_blame(m_ref, blame_vals) or default_key
 
     A = {i.name: arg_for(i) for i in m.graph.input}
     feeds = {f"arg_{j}": vals1[n] for j, n in enumerate(ins)}
@@ -795,7 +803,8 @@ def oracle_compose(m: onnx.ModelProto, form: str, seed: int) -> list[tuple[str, 
                 x0 = A[float_ins[0]]
                 cur = vals1[float_ins[0]]
                 for _ in range(trips):
-                    cur = direct({n: (cur if n in float_ins else vals1[n]) for n in ins})[link]
+                    blame_vals.append({n: (cur if n in float_ins else vals1[n]) for n in ins})
+                    cur = direct(blame_vals[-1])[link]
                     if np.asarray(cur).shape != fshape:
                         return fails  # the state changes shape at run time: not a legal Loop state here
 
@@ -888,6 +897,7 @@ def oracle_compose(m: onnx.ModelProto, form: str, seed: int) -> list[tuple[str, 
                     return fails  # feeding it back is not a legal call at run time
                 A2 = {n: (r1[link] if n in float_ins else A[n]) for n in ins}
                 v2 = {n: (d1[link] if n in float_ins else vals1[n]) for n in ins}
+                blame_vals.append(v2)
                 r2 = apply(f, A2, len(ins), [])
                 d2 = direct(v2)
                 for k, o in enumerate(outs):
